@@ -182,6 +182,38 @@ def gen_identity(scn, rng, depth):
     return hist
 
 
+def gen_pending(scn, rng, depth):
+    """Focused L2 histories for Master._check_pending_start (extension beyond the
+    listed properties): instances placed, some reported running, the periodic
+    integrity check called at intervals around the 5 minute start interval."""
+    napps = rng.randrange(1, len(scn['apps']) + 1)
+    apps = list(scn['apps'][:napps])
+    hist = [('CreateApp', [a, rng.randrange(len(scn['aprofiles'])) + 1]) for a in apps]
+    hist.append(('Cycle', []))
+    for _ in range(depth):
+        r = rng.random()
+        if r < 0.30:
+            hist.append(('Integrity', []))
+        elif r < 0.50:
+            hist.append(('Tick', [rng.choice([100, 200, 301, 301])]))
+        elif r < 0.65:
+            hist.append(('Running', [rng.choice(apps)]))
+        elif r < 0.72:
+            hist.append(('Stopped', [rng.choice(apps)]))
+        elif r < 0.82:
+            hist.append(('Cycle', []))
+        elif r < 0.88:
+            s = rng.choice(sorted(scn['server_init']))
+            hist.append(('ServerState', [s, rng.choice(['up', 'down', 'frozen']), []]))
+        elif r < 0.94:
+            hist.append(('DeleteApp', [rng.choice(apps)]))
+        else:
+            hist.append(('SetPrio', [rng.choice(apps), rng.choice([1, 50])]))
+    hist.append(('Integrity', []))
+    hist.append(('Cycle', []))
+    return hist
+
+
 def _rec_one(args):
     scn_name, k, h = args
     lines = master_l2.replay(SCENARIOS[scn_name], h)
